@@ -193,6 +193,14 @@ def tour_cases():
                      'oracle': msg, 'okey': k, 'ts': ts, 'family': 'ties'})
     rows += near_tie_rows(r, ts)
     rows += size_history_rows(r)
+    # SCALE: large populations and many rounds (thresholds, index types, accumulated state only show beyond toy sizes)
+    for (L, n) in ([(300, 40), (1000, 7)] if hlib.QUICK else [(300, 40), (1000, 7), (5000, 3), (64, 700), (257, 257)]):
+        fit = [float(r.randint(-50, 50)) for _ in range(L)]
+        script = [r.randrange(L) for _ in range(n * max(ts, 1) + 4)]
+        res = run_tournament(fit, True, n, script)
+        k, msg = tour_oracle(fit, n, script, res, ts) if ts >= 1 else (None, None)
+        rows.append({'fit': [key(v) for v in fit], 'as_array': True, 'n': n, 'script': script, 'res': res,
+                     'oracle': msg, 'okey': k, 'ts': ts, 'family': 'scale'})
     return rows
 
 
@@ -286,6 +294,11 @@ def pair_cases():
             res = run_pairwise(vals, kind)
             k, msg = pair_oracle(vals, res)
             rows.append({'vals': vals, 'kind': kind, 'res': res, 'oracle': msg, 'okey': k})
+    for L in ([1000, 257] if hlib.QUICK else [1000, 257, 4097, 10001]):          # SCALE
+        vals = [r.randint(-10 ** 6, 10 ** 6) for _ in range(L)]
+        res = run_pairwise(vals, 'list')
+        k, msg = pair_oracle(vals, res)
+        rows.append({'vals': vals, 'kind': 'list', 'res': res, 'oracle': msg, 'okey': k})
     if not hlib.QUICK:
         for _ in range(200):
             L = r.randint(0, 40)
